@@ -1,6 +1,7 @@
 (* C09 — datapaths are isolated from each other and replies go to their origin.
    Statements only; proofs live in Portus.Runtime.LoopFacts. *)
 From Portus Require Import Loop LoopFacts.
+From PortusGen Require Import FlowKey.
 
 (* frame: whatever message arrives from address a, the binding of every (b, s) with b <> a is
    unchanged — it is not created, fed, replaced or closed — even when flow ids coincide *)
@@ -44,3 +45,13 @@ Theorem C09_commands_go_to_origin : forall cfg send_ok cs fl rep k fl' es n,
   exec_cmds cfg send_ok fl rep k cs = Some (fl', es, n) -> Forall (cmd_effect_ok cfg fl) es.
 Proof. intros cfg send_ok cs. exact (exec_cmds_effects cfg (fun _ _ => []) send_ok cs). Qed.
 Print Assumptions C09_commands_go_to_origin.
+
+(* The model keys flows by datapath address, then flow id.  That the code does so too is not
+   something running it can establish (two addresses that collide under a lossy key are not found
+   by testing), so this obligation is regenerated from the text of run_inner on every run by
+   lib/gen_flowkey.py: the table is declared HashMap<I::Addr, HashMap<u32, _>>, every access to it
+   uses the receive address itself, every access to a per-address table uses the message's flow
+   id, and run_inner keeps no other table. *)
+Theorem C09_source_keys_flows_by_address_then_flow_id : flow_map_shape = KeyAddrThenSid.
+Proof. reflexivity. Qed.
+Print Assumptions C09_source_keys_flows_by_address_then_flow_id.
